@@ -2063,7 +2063,8 @@ class Memoer(Tymee):
             del gram[:cnt]  # remove from buffer those bytes sent
             if not gram:  # all sent
                 dst = None  # done indicated by setting dst to None
-            self.txbs = (gram, dst)  # update .txbs to indicate if completely sent
+        # always update .txbs, also when nothing sent so gram just taken is kept
+        self.txbs = (gram if dst is not None else bytearray(), dst)
 
         return (False if dst else True)  # incomplete return False, else True
 
@@ -2077,7 +2078,7 @@ class Memoer(Tymee):
            echoic (bool): True means echo sends into receives via. echos
                            False measn do not echo
         """
-        if self.opened and self.txgs:
+        if self.opened and (self.txgs or self.txbs[1] is not None):  # pending gram or remainder
             self._serviceOnceTxGrams(echoic=echoic)
 
 
@@ -2090,7 +2091,7 @@ class Memoer(Tymee):
            echoic (bool): True means echo sends into receives via. echos
                            False measn do not echo
         """
-        while self.opened and self.txgs:  # pending gram(s)
+        while self.opened and (self.txgs or self.txbs[1] is not None):  # pending gram(s) or remainder
             if not self._serviceOnceTxGrams(echoic=echoic):  # send incomplete
                 break  # try again later
 
